@@ -194,7 +194,8 @@ def run_one(job):
         if lines[mu["line"] - 1].rstrip() != mu["old"]:
             res["status"] = "STALE"
             return res
-        lines[mu["line"] - 1] = mu["new"]
+        if mu["op"] != "calibration":
+            lines[mu["line"] - 1] = mu["new"]
         src = "\n".join(lines)
         try:
             compile(src, fp, "exec")
@@ -230,7 +231,8 @@ def run_one(job):
             ["/venv/bin/python", "-m", "pytest", "-q", "-p",
              "no:cacheprovider", "--timeout=900",
              "--continue-on-collection-errors", "--junitxml=" + jx,
-             "-x" if False else "-q"],
+             # (in a copy tests/matplotlib/tests shadows the tests package)
+             "--ignore=tests/matplotlib"],
             cwd=os.path.join(d, "repo"), env=env, stdout=subprocess.PIPE,
             stderr=subprocess.STDOUT, timeout=3000)
         passed = set()
@@ -277,12 +279,22 @@ def main():
     rng.shuffle(mus)
     mus = mus[:opt["max"]]
     os.makedirs(opt["out"], exist_ok=True)
+    # job 0: the unchanged tree must come out as SURVIVOR (check passes,
+    # all stable tests pass in the copy), otherwise nothing is believed
+    if mus and not opt["no_suite"]:
+        mus = [dict(mus[0], op="calibration", new=mus[0]["old"])] + mus
     jobs = [(pid, k, mu, opt["out"], opt["no_suite"])
             for k, mu in enumerate(mus)]
     with Pool(opt["jobs"]) as pool:
         results = pool.map(run_one, jobs, chunksize=1)
     json.dump(results, open(os.path.join(opt["out"], pid + ".json"), "w"),
               indent=1)
+    if results and results[0]["op"] == "calibration":
+        if results[0]["status"] != "SURVIVOR":
+            print(pid, "CALIBRATION FAILED:", results[0]["status"],
+                  results[0].get("suite_missing"), results[0].get(
+                      "check_tail"))
+        results = results[1:]
     tally = {}
     for r in results:
         tally[r["status"]] = tally.get(r["status"], 0) + 1
